@@ -149,6 +149,11 @@ for g in symmetry._groups:
             (1, -1, 1), (-1, -1, -1), (2, 1, 0), (1, 2, 3)]
     for a in (axes if N >= 20 else axes[:6]):
         special.append(("lowindex", np.array(a, float)))
+    if L.name == "m-3":
+        # fixed directions just across the plane x = z of the hand-set m-3 sector (design-phase finding):
+        # their projection lands outside the sector
+        special.append(("m-3-band", np.array([0.6933, 0.2008, 0.6921])))
+        special.append(("m-3-band", np.array([-0.7057, 0.7053, 0.0669])))
     dirs += special
 
     V = Vector3d(np.array([d[1] for d in dirs]))
